@@ -204,10 +204,11 @@ fn light_line(chain: &str, h: u64, commit: &Commit, set: &Set, raw: bool) -> Str
     let ch = chain_of(chain);
     let bits = light_bits(set, commit, &ch);
     format!(
-        "light chain={chain} h={h} {} {} bits={}",
+        "light chain={chain} h={h} {} {} bits={} ibits={}",
         fmt_commit(&of_commit(commit), ""),
         fmt_set(&of_set(set, raw), ""),
-        bits_str(&bits)
+        bits_str(&bits),
+        bits_str(&light_ibits(set, commit, &ch))
     )
 }
 
@@ -215,10 +216,11 @@ fn trusting_line(chain: &str, tn: u64, td: u64, commit: &Commit, set: &Set, raw:
     let ch = chain_of(chain);
     let bits = trusting_bits(set, commit, &ch);
     format!(
-        "trusting chain={chain} tn={tn} td={td} {} {} bits={}",
+        "trusting chain={chain} tn={tn} td={td} {} {} bits={} ibits={}",
         fmt_commit(&of_commit(commit), ""),
         fmt_set(&of_set(set, raw), ""),
-        bits_str(&bits)
+        bits_str(&bits),
+        bits_str(&trusting_ibits(set, commit, &ch))
     )
 }
 
@@ -490,20 +492,22 @@ impl Prop for C03 {
             "light" => {
                 let Some(h) = arg_u64(line, "h") else { return "bad-op".into() };
                 let bits = light_bits(&set, &commit, &ch);
+                let ibits = light_ibits(&set, &commit, &ch);
                 let height: tendermint::block::Height = h.try_into().unwrap();
                 let r = set.verify_commit_light(&ch, &height, &commit);
                 match r {
-                    Ok(()) => format!("ok bits={}", bits_str(&bits)),
-                    Err(e) => format!("err {} bits={}", err_kind(&e), bits_str(&bits)),
+                    Ok(()) => format!("ok bits={} ibits={}", bits_str(&bits), bits_str(&ibits)),
+                    Err(e) => format!("err {} bits={} ibits={}", err_kind(&e), bits_str(&bits), bits_str(&ibits)),
                 }
             }
             "trusting" => {
                 let (Some(tn), Some(td)) = (arg_u64(line, "tn"), arg_u64(line, "td")) else { return "bad-op".into() };
                 let bits = trusting_bits(&set, &commit, &ch);
+                let ibits = trusting_ibits(&set, &commit, &ch);
                 let r = set.verify_commit_light_trusting(&ch, &commit, TrustLevelRatio::new(tn, td));
                 match r {
-                    Ok(()) => format!("ok bits={}", bits_str(&bits)),
-                    Err(e) => format!("err {} bits={}", err_kind(&e), bits_str(&bits)),
+                    Ok(()) => format!("ok bits={} ibits={}", bits_str(&bits), bits_str(&ibits)),
+                    Err(e) => format!("err {} bits={} ibits={}", err_kind(&e), bits_str(&bits), bits_str(&ibits)),
                 }
             }
             _ => "bad-op".into(),
